@@ -30,6 +30,7 @@ import (
 	"sync"
 	"syscall"
 	"time"
+	"unsafe"
 
 	"github.com/zeebo/xxh3"
 
@@ -48,7 +49,13 @@ func init() {
 		"a command that is a `task:` call of a helper with a `test -f` precondition, failing — also under --dry — while the file is missing; " +
 		"SIGKILL at a command boundary); c04: twin tasks with the same display name (equal labels, a label equal to the other's name) run one after the other; " +
 		"c05: boundary-shift pairs (a rename plus an edit that moves bytes between a file's name and the content next to it, also across two adjacent files) " +
-		"between two runs; non-trivial = history with at least one skip, failure, kill or declined prompt; distinct by case"
+		"between two runs; c04/c05: sources reached through SYMBOLIC LINKS (a matched path that is a link to a file outside the project, files below a directory " +
+		"that is a link; edits and touches go to the target, the link keeps its old mtime), as a rendering choice of any case and as a directed stream; " +
+		"c04: a run CANCELLED BY A FAILING SIBLING between the up-to-date check and the first command (parent with deps [failing task, this task], the task's " +
+		"status command waits on a gate file until the sibling is about to fail); c04: a SECOND ACTIVATION of the same task in one invocation, checking while the " +
+		"first is inside its first command; c04/c05: `ignore_error` on tasks and commands, brace patterns, dangling links next to the sources, generates entries " +
+		"`${G:?}/…` with invocations that do not set G (an error of the check); all: `silent: true` on commands / task: calls / tasks / the Taskfile and " +
+		"--silent on --dry / --status / --summary as rendering choices (silence never changes what runs); non-trivial = history with at least one skip, failure, kill or declined prompt; distinct by case"
 	domains["fingerhist-c04"] = domain{func(c *Ctx) { runFingerHist(c, "c04") }, rule}
 	domains["fingerhist-c05"] = domain{func(c *Ctx) { runFingerHist(c, "c05") }, rule}
 	domains["fingerhist-c12"] = domain{func(c *Ctx) { runFingerHist(c, "c12") }, rule}
@@ -258,6 +265,11 @@ type fhCmd struct {
 	// (path relative to the project root) and whose single command is this one.  The call fails before
 	// anything runs when the file is missing — also under --dry, where preconditions are still evaluated.
 	Need string `json:"need,omitempty"`
+	// RENDERING only (no effect on what runs, not part of the case line): the command — or the `task:`
+	// call — carries `silent: true`
+	Silent bool `json:"silent,omitempty"`
+	// `ignore_error: true` on the command (the code honours it for plain commands only, not for `task:` calls)
+	IgnoreError bool `json:"ignore_error,omitempty"`
 }
 
 type fhTask struct {
@@ -270,6 +282,12 @@ type fhTask struct {
 	Generates []fhGlob `json:"generates,omitempty"` // relative to the task dir
 	Status    []string `json:"status,omitempty"`    // files tested with `test -f`, relative to the project root
 	Cmds      []fhCmd  `json:"cmds"`
+	Silent    bool     `json:"silent,omitempty"` // RENDERING only: `silent: true` on the task
+	// `ignore_error: true` on the task: a command or call that ends with a failing exit status is skipped over
+	IgnoreError bool `json:"ignore_error,omitempty"`
+	// indices of the generates entries written `${G:?}/<glob>`: expanding them is an error while the
+	// environment variable G is not set (step flag `no_g`); method checksum only
+	GGuard []int `json:"gguard,omitempty"`
 }
 
 type fhStep struct {
@@ -285,11 +303,37 @@ type fhStep struct {
 	Content string `json:"content,omitempty"`
 	Mtime   int64  `json:"mtime,omitempty"`
 	Dir     string `json:"dir,omitempty"`
+	Silent  bool   `json:"silent,omitempty"` // RENDERING only: the invocation gets `--silent`
+	// Sib (mode run, a task with sources AND status): the task runs as a DEPENDENCY of a parent next to a
+	// sibling that fails while this task's `status:` commands are running (they wait on a gate file the
+	// sibling creates just before it exits 1): cancelled between the up-to-date check and the first command
+	Sib bool `json:"sib,omitempty"`
+	// NoG: the environment variable G is NOT set in this invocation (entries `${G:?}/…` cannot be expanded)
+	NoG bool `json:"no_g,omitempty"`
+	// Twin (mode run, a task with sources and WITHOUT status / generates): the task runs as a dependency of a
+	// parent next to a sibling that CALLS THE SAME TASK again while the first activation is inside its first
+	// command (no `run: once`): the second activation's up-to-date check sees what the first's check recorded
+	Twin bool `json:"twin,omitempty"`
 }
 
+// The fields below `Steps` are RENDERING choices: they change how the abstract case is laid out on
+// disk / written as YAML, never the case line the model sees.
+//
+//	LinkFiles  root-relative paths that exist as SYMBOLIC LINKS to regular files kept outside the project
+//	           (<work>/shared/…): content and mtime of the path are those of the target; writes and touches
+//	           go to the target, delete / move act on the link (whose own mtime is the logical time 0)
+//	LinkDirs   root-relative directories created as symbolic links to directories outside the project
+//	           (the real expander follows them, also below `**`)
+//	SilentFile `silent: true` at the top of the root Taskfile
+//	Dangling   root-relative paths OUTSIDE the universe of the case that exist, from the start, as symbolic
+//	           links to nothing: a glob expands to them, but they are no files (not matched, not in the snapshot)
 type fhCase struct {
-	Tasks []fhTask `json:"tasks"`
-	Steps []fhStep `json:"steps"`
+	Tasks      []fhTask `json:"tasks"`
+	Steps      []fhStep `json:"steps"`
+	LinkFiles  []string `json:"link_files,omitempty"`
+	LinkDirs   []string `json:"link_dirs,omitempty"`
+	SilentFile bool     `json:"silent_file,omitempty"`
+	Dangling   []string `json:"dangling,omitempty"`
 }
 
 var fhModes = map[string]int{"run": 0, "force": 1, "dry": 2, "status": 3, "listjson": 4, "list": 5, "summary": 6}
@@ -330,6 +374,10 @@ type fhRun struct {
 	gbits   []bool
 	viol    []fhViol
 	err     string
+	linkF   map[string]bool // root-relative paths rendered as symbolic links to files
+	linkD   map[string]bool // root-relative directories rendered as symbolic links
+	nShared int
+	dangling map[string]bool // root-relative paths that are links to nothing (a rendering choice)
 }
 
 type fhViol struct {
@@ -396,6 +444,9 @@ func yamlQ(s string) string { return "'" + strings.ReplaceAll(s, "'", "''") + "'
 func (r *fhRun) writeTaskfiles() {
 	var rootB, incB strings.Builder
 	rootB.WriteString("version: '3'\n")
+	if r.d.SilentFile {
+		rootB.WriteString("silent: true\n")
+	}
 	incB.WriteString("version: '3'\ntasks:\n")
 	ns := ""
 	for _, t := range r.d.Tasks {
@@ -430,6 +481,12 @@ func (r *fhRun) writeTaskfiles() {
 		if t.Prompt {
 			b.WriteString("    prompt: 'continue?'\n")
 		}
+		if t.Silent {
+			b.WriteString("    silent: true\n")
+		}
+		if t.IgnoreError {
+			b.WriteString("    ignore_error: true\n")
+		}
 		// patterns given through task variables
 		nv := 0
 		for _, gs := range [][]fhGlob{t.Sources, t.Generates} {
@@ -452,8 +509,15 @@ func (r *fhRun) writeTaskfiles() {
 				continue
 			}
 			fmt.Fprintf(b, "    %s:\n", kv.k)
-			for _, g := range kv.gs {
+			for gi, g := range kv.gs {
 				txt := yamlQ(g.Glob)
+				if kv.k == "generates" && !g.Tmpl {
+					for _, x := range t.GGuard {
+						if x == gi {
+							txt = yamlQ("${G:?}/" + g.Glob)
+						}
+					}
+				}
 				if g.Tmpl {
 					txt = fmt.Sprintf("'{{.GV%d}}'", nv)
 					nv++
@@ -467,13 +531,36 @@ func (r *fhRun) writeTaskfiles() {
 		}
 		if len(t.Status) > 0 {
 			b.WriteString("    status:\n")
-			for _, s := range t.Status {
+			for k, s := range t.Status {
+				if k == 0 {
+					// with $GATE set (a `Sib` step): tell the sibling we are here, wait until it is about to fail,
+					// then keep busy until the cancellation arrives
+					fmt.Fprintf(b, "      - |\n        if [ -n \"$GATE\" ]; then : > \"$GATE.ready\"; while [ ! -f \"$GATE\" ]; do sleep 0.05; done; sleep 5; fi\n        test -f \"$R/%s\"\n", s)
+					continue
+				}
 				fmt.Fprintf(b, "      - test -f \"$R/%s\"\n", s)
 			}
 		}
 		b.WriteString("    cmds:\n")
 		body := func(k int, c fhCmd, indent string) {
-			fmt.Fprintf(b, "%s- |\n", indent)
+			switch {
+			case c.Need == "" && c.Silent && c.IgnoreError:
+				fmt.Fprintf(b, "%s- silent: true\n%s  ignore_error: true\n%s  cmd: |\n", indent, indent, indent)
+				indent += "  "
+			case c.Need == "" && c.Silent:
+				fmt.Fprintf(b, "%s- silent: true\n%s  cmd: |\n", indent, indent)
+				indent += "  "
+			case c.Need == "" && c.IgnoreError:
+				fmt.Fprintf(b, "%s- ignore_error: true\n%s  cmd: |\n", indent, indent)
+				indent += "  "
+			default:
+				fmt.Fprintf(b, "%s- |\n", indent)
+			}
+			if k == 0 {
+				// a `Twin` step ($TWIN set): the FIRST activation (it wins the mkdir) tells the sibling it is inside
+				// its first command and waits until the second activation has come and gone
+				fmt.Fprintf(b, "%s  if [ -n \"$TWIN\" ] && mkdir \"$TWIN.lock\" 2>/dev/null; then : > \"$TWIN.ready\"; n=0; while [ ! -f \"$TWIN.go\" ] && [ $n -lt 200 ]; do sleep 0.05; n=$((n+1)); done; fi\n", indent)
+			}
 			fmt.Fprintf(b, "%s  if [ \"$KILL_AT\" = \"%d\" ]; then sh -c 'kill -KILL $PPID'; sleep 30; fi\n", indent, k)
 			fmt.Fprintf(b, "%s  printf '%%s\\n' %d >> \"$TRACE\"\n", indent, k)
 			fmt.Fprintf(b, "%s  if [ \"$FAIL_AT\" = \"%d\" ]; then exit 1; fi\n", indent, k)
@@ -484,9 +571,26 @@ func (r *fhRun) writeTaskfiles() {
 		for k, c := range t.Cmds {
 			if c.Need != "" {
 				fmt.Fprintf(b, "      - task: zh%d-%d\n", i, k)
+				if c.Silent {
+					b.WriteString("        silent: true\n")
+				}
+				if c.IgnoreError {
+					b.WriteString("        ignore_error: true\n")
+				}
 				continue
 			}
 			body(k, c, "      ")
+		}
+		// the parent and the failing sibling of a `Sib` step: same file as the task
+		if len(t.Status) > 0 && len(t.Sources) > 0 {
+			fmt.Fprintf(b, "  zs%d:\n    deps: [zf%d, %s]\n", i, i, yamlQ(name))
+			fmt.Fprintf(b, "  zf%d:\n    cmds:\n      - |\n        n=0; while [ ! -f \"$GATE.ready\" ] && [ $n -lt 200 ]; do sleep 0.05; n=$((n+1)); done\n        : > \"$GATE\"; exit 1\n", i)
+		}
+		// the parent and the sibling of a `Twin` step: the sibling waits until the first activation is inside its
+		// first command, calls the task again, and lets the first activation go on
+		if len(t.Sources) > 0 && len(t.Status) == 0 && len(t.Generates) == 0 {
+			fmt.Fprintf(b, "  zt%d:\n    deps: [%s, zd%d]\n", i, yamlQ(name), i)
+			fmt.Fprintf(b, "  zd%d:\n    cmds:\n      - |\n        n=0; while [ ! -f \"$TWIN.ready\" ] && [ $n -lt 200 ]; do sleep 0.05; n=$((n+1)); done\n      - task: %s\n      - ': > \"$TWIN.go\"'\n", i, yamlQ(name))
 		}
 		// the helpers of the `task:` calls: same file (a call inside an included file names a task of
 		// that file), internal, no sources / dir / prompt: precondition, then the command itself
@@ -571,9 +675,13 @@ func (r *fhRun) caseLine(src, gen [][][]int) string {
 		if t.Dir != "" {
 			d = r.did[t.Dir] + 1
 		}
-		fmt.Fprintf(&sb, " %s %s %d %s %d", hx(t.Name), hx(t.Label), m, b2s(t.Prompt), d)
+		fmt.Fprintf(&sb, " %s %s %d %s %d %s", hx(t.Name), hx(t.Label), m, b2s(t.Prompt), d, b2s(t.IgnoreError))
 		pats(t.Sources, src[i])
 		pats(t.Generates, gen[i])
+		fmt.Fprintf(&sb, " %d", len(t.GGuard))
+		for _, x := range t.GGuard {
+			fmt.Fprintf(&sb, " %d", x)
+		}
 		fmt.Fprintf(&sb, " %d", len(t.Status))
 		for _, s := range t.Status {
 			fmt.Fprintf(&sb, " %d", r.pid[s])
@@ -589,13 +697,14 @@ func (r *fhRun) caseLine(src, gen [][][]int) string {
 			} else {
 				sb.WriteString(" 0")
 			}
+			sb.WriteString(" " + b2s(c.IgnoreError))
 		}
 	}
 	fmt.Fprintf(&sb, " %d", len(r.d.Steps))
 	for _, s := range r.d.Steps {
 		switch s.Kind {
 		case "inv":
-			fmt.Fprintf(&sb, " I %d %d %d %s %d %d", s.Task, fhModes[s.Mode], s.Now, b2s(s.Yes), s.Fail+1, s.Kill+1)
+			fmt.Fprintf(&sb, " I %d %d %d %s %d %d %s %s %s", s.Task, fhModes[s.Mode], s.Now, b2s(s.Yes), s.Fail+1, s.Kill+1, b2s(s.Sib), b2s(!s.NoG), b2s(s.Twin))
 		case "write":
 			fmt.Fprintf(&sb, " W %d %s %d", r.pid[s.Path], hx(s.Content), s.Mtime)
 		case "touch":
@@ -626,13 +735,10 @@ func (r *fhRun) snapshot() fhSnap {
 		txt string
 	}
 	var fs []fe
-	filepath.Walk(r.root, func(p string, info os.FileInfo, err error) error {
-		if err != nil || info.IsDir() {
-			return nil
-		}
+	r.walk(func(p string, info os.FileInfo) {
 		rel := relTo(r.root, p)
 		if rel == "Taskfile.yml" || rel == "Inc.yml" {
-			return nil
+			return
 		}
 		lt := info.ModTime().Unix() - fhEpoch
 		switch {
@@ -649,7 +755,6 @@ func (r *fhRun) snapshot() fhSnap {
 				s.extra = append(s.extra, "X"+hx(rel))
 			}
 		}
-		return nil
 	})
 	sort.Slice(fs, func(i, j int) bool { return fs[i].id < fs[j].id })
 	for _, f := range fs {
@@ -795,12 +900,118 @@ func (r *fhRun) goodRun(i int) (good bool, matched *fhAttempt) {
 	return false, nil
 }
 
+// walk visits every file below the project root, FOLLOWING symbolic links: a link to a regular file is
+// reported with the target's FileInfo (the path stands for its target), a link to a directory is
+// descended into; a dangling link is reported with its own (Lstat) info.
+func (r *fhRun) walk(fn func(abs string, info os.FileInfo)) {
+	var rec func(dir string, depth int)
+	rec = func(dir string, depth int) {
+		es, err := os.ReadDir(dir)
+		if err != nil || depth > 12 {
+			return
+		}
+		for _, e := range es {
+			p := filepath.Join(dir, e.Name())
+			li, err := os.Lstat(p)
+			if err != nil {
+				continue
+			}
+			info := li
+			if li.Mode()&os.ModeSymlink != 0 {
+				if st, err := os.Stat(p); err == nil {
+					info = st
+				} else if r.dangling[relTo(r.root, p)] {
+					continue // a link to nothing that the case put there: no file
+				}
+			}
+			if info.IsDir() {
+				rec(p, depth+1)
+				continue
+			}
+			fn(p, info)
+		}
+	}
+	rec(r.root, 0)
+}
+
+// mkParents creates the directories above the root-relative path p; a directory listed in LinkDirs is
+// created as a symbolic link to a fresh directory outside the project.
+func (r *fhRun) mkParents(p string) {
+	parts := strings.Split(filepath.ToSlash(filepath.Dir(p)), "/")
+	cur := ""
+	for _, part := range parts {
+		if part == "." || part == "" {
+			continue
+		}
+		if cur == "" {
+			cur = part
+		} else {
+			cur = cur + "/" + part
+		}
+		abs := filepath.Join(r.root, cur)
+		if _, err := os.Stat(abs); err == nil {
+			continue
+		}
+		if r.linkD[cur] {
+			r.nShared++
+			target := filepath.Join(r.work, "shared", fmt.Sprintf("d%d", r.nShared))
+			os.MkdirAll(target, 0o755)
+			os.Remove(abs) // a dangling leftover
+			os.Symlink(target, abs)
+			continue
+		}
+		os.Mkdir(abs, 0o755)
+	}
+}
+
+// lutimes sets the modification time of a symbolic link ITSELF (utimensat with AT_SYMLINK_NOFOLLOW)
+func lutimes(path string, sec int64) {
+	ts := [2]syscall.Timespec{{Sec: sec}, {Sec: sec}}
+	b, err := syscall.BytePtrFromString(path)
+	if err != nil {
+		return
+	}
+	const atFdcwd, atSymlinkNofollow = -100, 0x100
+	fd := atFdcwd
+	syscall.Syscall6(syscall.SYS_UTIMENSAT, uintptr(fd), uintptr(unsafe.Pointer(b)), uintptr(unsafe.Pointer(&ts[0])), atSymlinkNofollow, 0, 0)
+}
+
+// ensureDangling (re)creates the links to nothing of the case — below a task directory only while that
+// directory exists (the model tracks which task directories exist; the links must not create them)
+func (r *fhRun) ensureDangling() {
+	for _, p := range r.d.Dangling {
+		ok := true
+		for _, d := range r.dirs {
+			if strings.HasPrefix(p, d+"/") {
+				if st, err := os.Stat(filepath.Join(r.root, d)); err != nil || !st.IsDir() {
+					ok = false
+				}
+			}
+		}
+		abs := filepath.Join(r.root, p)
+		if _, err := os.Lstat(abs); err == nil || !ok {
+			continue
+		}
+		r.mkParents(p)
+		os.Symlink(filepath.Join(r.work, "nowhere"), abs)
+	}
+}
+
 func (r *fhRun) applyOp(s fhStep) {
 	p := filepath.Join(r.root, s.Path)
 	switch s.Kind {
 	case "write":
-		os.MkdirAll(filepath.Dir(p), 0o755)
-		os.WriteFile(p, []byte(s.Content), 0o644)
+		r.mkParents(s.Path)
+		if _, err := os.Lstat(p); err != nil && r.linkF[s.Path] {
+			// a fresh symbolic link to a fresh file outside the project; its own mtime is logical time 0
+			r.nShared++
+			target := filepath.Join(r.work, "shared", fmt.Sprintf("f%d", r.nShared))
+			os.MkdirAll(filepath.Dir(target), 0o755)
+			os.WriteFile(target, nil, 0o644)
+			os.Symlink(target, p)
+			lutimes(p, fhEpoch)
+		}
+		os.WriteFile(p, []byte(s.Content), 0o644) // through the link, if it is one
 		tm := time.Unix(fhEpoch+s.Mtime, 0)
 		os.Chtimes(p, tm, tm)
 	case "touch":
@@ -813,12 +1024,26 @@ func (r *fhRun) applyOp(s fhStep) {
 	case "move":
 		if _, err := os.Stat(p); err == nil {
 			q := filepath.Join(r.root, s.To)
-			os.MkdirAll(filepath.Dir(q), 0o755)
+			r.mkParents(s.To)
 			os.Rename(p, q)
 		}
 	case "rmdir":
 		os.RemoveAll(filepath.Join(r.root, s.Dir))
 	}
+}
+
+func fileExists(p string) bool { _, err := os.Stat(p); return err == nil }
+
+// invokeRaw runs the binary once, outside the history (a read-only probe); nil = exit status 0
+func (r *fhRun) invokeRaw(args []string, fail, kill string) error {
+	ctx, cancel := context.WithTimeout(context.Background(), 25*time.Second)
+	defer cancel()
+	cmd := exec.CommandContext(ctx, r.bin, args...)
+	cmd.Dir = r.root
+	cmd.Env = []string{"PATH=/usr/local/bin:/usr/bin:/bin", "HOME=" + filepath.Join(r.work, "home"), "NO_COLOR=1",
+		"TRACE=" + filepath.Join(r.work, "trace-probe"), "R=" + r.root, "FAIL_AT=" + fail, "KILL_AT=" + kill, "G=."}
+	cmd.WaitDelay = 2 * time.Second
+	return cmd.Run()
 }
 
 type fhInv struct {
@@ -834,8 +1059,45 @@ func (r *fhRun) invoke(s fhStep) fhInv {
 	if s.Yes {
 		args = append(args, "--yes")
 	}
+	if s.Silent {
+		args = append(args, "--silent")
+	}
+	// `silent` on the task / the Taskfile / the command line also suppresses `Task "x" is up to date`
+	hidden := (s.Silent || t.Silent || r.d.SilentFile) && !s.Twin
+	probe := false
+	if hidden && s.Mode == "dry" {
+		// what a silenced --dry decides is not printed: ask --status (the same check, also dry) first
+		probe = r.invokeRaw([]string{"--status", t.Name}, "", "") == nil
+	}
+	gate, twin := "", ""
 	switch s.Mode {
 	case "run":
+		if s.Sib {
+			// the parent `zs<i>` lives in the file of the task: `ns:zs<i>` for an included one
+			ti := s.Task % len(r.d.Tasks)
+			parent := fmt.Sprintf("zs%d", ti)
+			if j := strings.Index(t.Name, ":"); j > 0 {
+				parent = t.Name[:j+1] + parent
+			}
+			gate = filepath.Join(r.work, "gate")
+			os.Remove(gate)
+			os.Remove(gate + ".ready")
+			args = append(args, parent)
+			break
+		}
+		if s.Twin {
+			ti := s.Task % len(r.d.Tasks)
+			parent := fmt.Sprintf("zt%d", ti)
+			if j := strings.Index(t.Name, ":"); j > 0 {
+				parent = t.Name[:j+1] + parent
+			}
+			twin = filepath.Join(r.work, "twin")
+			os.RemoveAll(twin + ".lock")
+			os.Remove(twin + ".ready")
+			os.Remove(twin + ".go")
+			args = append(args, parent)
+			break
+		}
 		args = append(args, t.Name)
 	case "force":
 		args = append(args, "--force", t.Name)
@@ -864,7 +1126,10 @@ func (r *fhRun) invoke(s fhStep) fhInv {
 		kill = strconv.Itoa(s.Kill)
 	}
 	cmd.Env = []string{"PATH=/usr/local/bin:/usr/bin:/bin", "HOME=" + filepath.Join(r.work, "home"), "NO_COLOR=1",
-		"TRACE=" + trace, "R=" + r.root, "FAIL_AT=" + fail, "KILL_AT=" + kill}
+		"TRACE=" + trace, "R=" + r.root, "FAIL_AT=" + fail, "KILL_AT=" + kill, "GATE=" + gate, "TWIN=" + twin}
+	if !s.NoG {
+		cmd.Env = append(cmd.Env, "G=.")
+	}
 	var so, se bytes.Buffer
 	cmd.Stdout, cmd.Stderr = &so, &se
 	cmd.WaitDelay = 2 * time.Second
@@ -896,6 +1161,14 @@ func (r *fhRun) invoke(s fhStep) fhInv {
 		}
 	}
 	o.skipped = strings.Contains(se.String(), "is up to date")
+	if hidden {
+		switch s.Mode {
+		case "run":
+			o.skipped = o.exit == "ok" && !fileExists(trace) // every task has a command, every command traces
+		case "dry":
+			o.skipped = o.exit == "ok" && probe
+		}
+	}
 	if b, err := os.ReadFile(trace); err == nil {
 		for _, ln := range strings.Fields(string(b)) {
 			k, _ := strconv.Atoi(ln)
@@ -925,14 +1198,10 @@ func (r *fhRun) invoke(s fhStep) fhInv {
 	// rebase every mtime produced during the invocation to the logical time of the step
 	lo, hi := t0.Unix()-1, t1.Unix()+1
 	tm := time.Unix(fhEpoch+s.Now, 0)
-	filepath.Walk(r.root, func(p string, info os.FileInfo, err error) error {
-		if err != nil || info.IsDir() {
-			return nil
-		}
+	r.walk(func(p string, info os.FileInfo) {
 		if u := info.ModTime().Unix(); u >= lo && u <= hi {
 			os.Chtimes(p, tm, tm)
 		}
-		return nil
 	})
 	return o
 }
@@ -950,6 +1219,7 @@ func (r *fhRun) run(only map[int]bool) {
 	os.MkdirAll(r.root, 0o755)
 	os.MkdirAll(filepath.Join(r.work, "home"), 0o755)
 	r.writeTaskfiles()
+	r.ensureDangling()
 	prev := r.snapshot()
 	for k, s := range r.d.Steps {
 		if only != nil && !only[k] {
@@ -962,6 +1232,7 @@ func (r *fhRun) run(only map[int]bool) {
 		}
 		if s.Kind != "inv" {
 			r.applyOp(s)
+			r.ensureDangling()
 			r.learnStreams()
 			snap := r.snapshot()
 			r.segs = append(r.segs, r.render(snap))
@@ -1010,6 +1281,7 @@ func (r *fhRun) run(only map[int]bool) {
 		}
 		pre := r.render(prev)
 		o := r.invoke(s)
+		r.ensureDangling()
 		r.learnStreams()
 		snap := r.snapshot()
 		post := r.render(snap)
@@ -1076,12 +1348,28 @@ func (r *fhRun) run(only map[int]bool) {
 			if matched != nil && newest > matched.time {
 				newer = "1" // some source is newer than the last attempt
 			}
-			return fmt.Sprintf("viol kind=%s method=%s gens=%s writer=%s wmode=%s wexit=%s wtask=%s lastatt=%s laexit=%s srcnewer=%s marker=%s vouch=%s wskip=%s",
-				kind, method, b2s(gens), w, wmode, wexit, wtask, la, laexit, newer, hasMarker, vouch, wskip)
+			tw := ""
+			if s.Twin && len(o.ran) > 0 {
+				tw = " twin=1" // "up to date" was said by a SECOND activation while the first ran its commands
+			}
+			return fmt.Sprintf("viol kind=%s method=%s gens=%s writer=%s wmode=%s wexit=%s wtask=%s lastatt=%s laexit=%s srcnewer=%s marker=%s vouch=%s wskip=%s%s",
+				kind, method, b2s(gens), w, wmode, wexit, wtask, la, laexit, newer, hasMarker, vouch, wskip, tw)
 		}
 		// C04: skip ⇒ goodRun
 		if s.Mode == "run" && o.skipped && len(t.Sources) > 0 && !good {
 			r.viol = append(r.viol, fhViol{"c04", k, ti, facts("skip-not-good")})
+		}
+		// … and the same for the QUERIES (the verdict of the check does not depend on the mode:
+		// `C04_partial_queries`): --status exiting 0, --dry reporting "up to date", `up_to_date: true`
+		if len(t.Sources) > 0 && !good {
+			switch {
+			case s.Mode == "status" && o.exit == "ok":
+				r.viol = append(r.viol, fhViol{"c04", k, ti, facts("status-not-good")})
+			case s.Mode == "dry" && o.skipped:
+				r.viol = append(r.viol, fhViol{"c04", k, ti, facts("dry-skip-not-good")})
+			case s.Mode == "listjson" && ti < len(o.bits) && o.bits[ti] == "1":
+				r.viol = append(r.viol, fhViol{"c04", k, ti, facts("list-not-good")})
+			}
 		}
 		// C05
 		if s.Mode == "force" && len(o.ran) == 0 && o.exit == "ok" {
@@ -1106,11 +1394,17 @@ func (r *fhRun) run(only map[int]bool) {
 			// whatever was edited, added, removed or renamed since went unnoticed (independent of how the
 			// code encodes the list; `shift=1`: the name+content bytes of the present tree, back to back, are
 			// those of an earlier attempt — the boundary-shift collision of the un-delimited stream)
-			if method == "checksum" && len(t.Sources) > 0 && !good {
+			// (method timestamp as well: C05 demands a rerun after ANY edit, addition, removal or rename; what
+			// the method cannot see — a change that leaves no source newer than the last attempt, `srcnewer=0` —
+			// is the open finding C05-timestamp-misses-non-mtime-changes; `op=` names the class of the change
+			// since the last attempt)
+			if (method == "checksum" && !good || method == "timestamp") && len(t.Sources) > 0 {
 				seen, any, shift := false, false, "0"
+				last := ""
 				for _, a := range r.log {
 					if a.task == ti {
 						any = true
+						last = a.ideal
 						if a.ideal == ideal {
 							seen = true
 						}
@@ -1120,16 +1414,18 @@ func (r *fhRun) run(only map[int]bool) {
 					}
 				}
 				if any && !seen {
-					r.viol = append(r.viol, fhViol{"c05", k, ti, facts("change-not-detected") + " samebases=0 shift=" + shift})
+					r.viol = append(r.viol, fhViol{"c05", k, ti, facts("change-not-detected") + " samebases=0 shift=" + shift + " op=" + fhOpClass(last, ideal)})
 				}
 			}
 		}
 		if s.Mode == "run" && !o.skipped && k > 0 && len(t.Sources) > 0 && method != "none" && gens && (len(t.Status) == 0 || stat) {
-			// idempotence: the previous step was a successful normal run of the same task
+			// idempotence: the previous step was a successful run of the same task — a normal one, or
+			// (`first=force`: the open finding C05-force-records-no-fingerprint) a --force run
 			ps := r.d.Steps[k-1]
-			if ps.Kind == "inv" && ps.Mode == "run" && ps.Task%len(r.d.Tasks) == ti && r.obsExit[k-1] == "ok" &&
-				(r.skips[k-1] || len(r.rans[k-1]) == len(t.Cmds)) && !(method == "timestamp" && newest > ps.Now) {
-				r.viol = append(r.viol, fhViol{"c05", k, ti, facts("not-idempotent")})
+			if ps.Kind == "inv" && (ps.Mode == "run" || ps.Mode == "force") && ps.Task%len(r.d.Tasks) == ti && r.obsExit[k-1] == "ok" &&
+				(r.skips[k-1] || len(r.rans[k-1]) == len(t.Cmds)) && !(method == "timestamp" && newest > ps.Now) &&
+				!ps.NoG && !s.NoG { // (the environment variable G is an input of the `${G:?}…` entries: both steps see it set)
+				r.viol = append(r.viol, fhViol{"c05", k, ti, facts("not-idempotent") + " first=" + ps.Mode})
 			}
 		}
 		// C12: read-only invocations change nothing and run nothing
@@ -1214,6 +1510,50 @@ func fhNorm(s string) string {
 	return sb.String()
 }
 
+// fhOpClass: how the list of (path, content) changed between two ideal fingerprints: `removal` (paths
+// gone, the rest unchanged), `addition`, `rename` (the same contents under other paths), `edit` (the same
+// paths, other contents), `mixed`
+func fhOpClass(old, now string) string {
+	parse := func(s string) map[string]string {
+		m := map[string]string{}
+		parts := strings.Split(s, "\x00")
+		for i := 0; i+1 < len(parts); i += 2 {
+			m[parts[i]] = parts[i+1]
+		}
+		return m
+	}
+	a, b := parse(old), parse(now)
+	gone, added, edited := 0, 0, 0
+	var ca, cb []string
+	for p, c := range a {
+		ca = append(ca, c)
+		if c2, ok := b[p]; !ok {
+			gone++
+		} else if c2 != c {
+			edited++
+		}
+	}
+	for p, c := range b {
+		cb = append(cb, c)
+		if _, ok := a[p]; !ok {
+			added++
+		}
+	}
+	sort.Strings(ca)
+	sort.Strings(cb)
+	switch {
+	case edited == 0 && added == 0 && gone > 0:
+		return "removal"
+	case edited == 0 && gone == 0 && added > 0:
+		return "addition"
+	case edited > 0 && gone == 0 && added == 0:
+		return "edit"
+	case edited == 0 && gone > 0 && added > 0 && strings.Join(ca, "\x00") == strings.Join(cb, "\x00"):
+		return "rename"
+	}
+	return "mixed"
+}
+
 // multiset of (base name, content) of an ideal fingerprint.  A change that keeps this multiset (a file
 // moved to another directory) went unnoticed while the checksum hashed filepath.Base; the monitor
 // keeps classifying it (samebases=1) so that a regression is recognised as that defect.
@@ -1240,7 +1580,18 @@ func newFhRun(d fhCase) *fhRun {
 	work := filepath.Join(fingerWork(), fmt.Sprintf("h%d-%d", os.Getpid(), n))
 	os.RemoveAll(work)
 	r := &fhRun{d: d, work: work, root: filepath.Join(work, "proj"), bin: os.Getenv("VERIF_TASK_BIN"),
-		pid: map[string]int{}, did: map[string]int{}, dict: map[string]string{}, writer: map[string]int{}}
+		pid: map[string]int{}, did: map[string]int{}, dict: map[string]string{}, writer: map[string]int{},
+		linkF: map[string]bool{}, linkD: map[string]bool{}}
+	for _, p := range d.LinkFiles {
+		r.linkF[p] = true
+	}
+	for _, p := range d.LinkDirs {
+		r.linkD[p] = true
+	}
+	r.dangling = map[string]bool{}
+	for _, p := range d.Dangling {
+		r.dangling[p] = true
+	}
 	r.paths, r.dirs = fhUniverse(d)
 	for i, p := range r.paths {
 		r.pid[p] = i
@@ -1345,7 +1696,7 @@ func (g *fhGen) chance(pct int) bool     { return g.c.Rng.Intn(100) < pct }
 
 var fhNames = []string{"x", "y", "a-b", "a.b", "a:b", "a:c", "a-c", "a_b"}
 var fhSrcPool = []string{"a.e", "b.e", "c.x", "d/a.e", "d/b.e", "e/a.e", "e/c.x"}
-var fhSrcPats = []string{"a.e", "*.e", "d/*", "**/*.e", "e/*.e", "*.x", "**/a.*", "d/a.e", "**/*.x"}
+var fhSrcPats = []string{"a.e", "*.e", "d/*", "**/*.e", "e/*.e", "*.x", "**/a.*", "d/a.e", "**/*.x", "{a,b}.e", "d/{a,b}.e", "{a.e,c.x}"}
 
 func (g *fhGen) content() string {
 	n := 1 + g.c.Rng.Intn(3)
@@ -1459,10 +1810,328 @@ func (g *fhGen) genShift() fhCase {
 	return d
 }
 
+// genLinks: the SYMLINK stream (c04, c05).  One task of either method whose sources are reached through
+// symbolic links — a matched path that is a link to a file outside the project, or a file below a
+// directory that is a link —; after a successful run the TARGET is edited or merely touched (the link
+// itself keeps its old mtime), then the task runs again: it must rebuild.  Renaming and deleting act on
+// the link.
+func (g *fhGen) genLinks() fhCase {
+	rng := g.c.Rng
+	t := fhTask{Name: g.pick([]string{"x", "y", "a-b", "a_b"}), Cmds: []fhCmd{{}}}
+	switch rng.Intn(3) {
+	case 0:
+		t.Method = "timestamp"
+	case 1:
+		t.Method = "checksum"
+	}
+	root := ""
+	if g.chance(25) {
+		t.Dir = "sub"
+		root = "sub/"
+	}
+	pat := g.pick([]string{"*.e", "**/*.e", "d/*", "d/*.e", "**/a.*"})
+	t.Sources = []fhGlob{{Glob: pat}}
+	var files []string
+	switch pat {
+	case "*.e":
+		files = []string{"a.e", "b.e"}
+	case "d/*", "d/*.e":
+		files = []string{"d/a.e", "d/b.e"}
+	default:
+		files = []string{"a.e", "d/a.e", "e/a.e"}
+	}
+	if g.chance(40) {
+		o := root + "out0_0.o"
+		t.Cmds[0].Writes = []fhWrite{{Path: o, Content: "o"}}
+		if g.chance(60) {
+			t.Generates = []fhGlob{{Glob: "out0_0.o"}}
+		}
+	}
+	var d fhCase
+	d.Tasks = []fhTask{t}
+	for _, f := range files {
+		if g.chance(70) {
+			d.LinkFiles = append(d.LinkFiles, root+f)
+		}
+	}
+	for _, sub := range []string{"d", "e"} {
+		if g.chance(35) {
+			d.LinkDirs = append(d.LinkDirs, root+sub)
+		}
+	}
+	if len(d.LinkFiles) == 0 && len(d.LinkDirs) == 0 {
+		d.LinkFiles = []string{root + files[0]}
+	}
+	add := func(st fhStep) {
+		st.Fail, st.Kill = -1, -1
+		switch st.Kind {
+		case "inv":
+			st.Yes, st.Now = true, int64(1000*(len(d.Steps)+1))
+		case "write", "touch":
+			st.Mtime = int64(1000*len(d.Steps) + 500)
+		}
+		d.Steps = append(d.Steps, st)
+	}
+	for _, f := range files {
+		if g.chance(75) || len(d.Steps) == 0 {
+			add(fhStep{Kind: "write", Path: root + f, Content: g.content()})
+		}
+	}
+	add(fhStep{Kind: "inv", Mode: "run"})
+	for n := 1 + rng.Intn(2); n > 0; n-- {
+		f := root + g.pick(files)
+		switch r := rng.Intn(100); {
+		case r < 40:
+			add(fhStep{Kind: "write", Path: f, Content: g.content() + "z"})
+		case r < 75:
+			add(fhStep{Kind: "touch", Path: f})
+		case r < 88:
+			add(fhStep{Kind: "move", Path: f, To: root + g.pick(files)})
+		default:
+			add(fhStep{Kind: "delete", Path: f})
+		}
+		add(fhStep{Kind: "inv", Mode: g.pick([]string{"run", "run", "run", "status", "dry"})})
+	}
+	if g.chance(50) {
+		add(fhStep{Kind: "inv", Mode: "run"})
+	}
+	return d
+}
+
+// genDirected4to6: three small directed streams for the repaired defects F8C–F8E.
+//
+//	ignore   (c05) a task with `ignore_error` (on the task, or on the failing command): the run whose
+//	         command k fails with an ignored exit status exits ok and KEEPS its fingerprint: the next run
+//	         is up to date (before F8C the task-level form lost it on every run)
+//	drop     (c05) a sources pattern one of whose expanded fields does not exist — `{a,b}.e` with b.e
+//	         absent, a glob next to a dangling symbolic link —: the other matches still count, an edit of
+//	         a.e is noticed (before F8E the whole pattern was dropped)
+//	checkerr (c04) a checksum task with a generates entry `${G:?}/…`: a run without G ends with the error
+//	         of the check and leaves NO checksum; with G set and the generates file in place the next run
+//	         executes the commands (before F8D it was "up to date")
+func (g *fhGen) genDirected4to6(kind string) fhCase {
+	rng := g.c.Rng
+	t := fhTask{Name: g.pick([]string{"x", "y", "a-b", "a_b"}), Cmds: []fhCmd{{}, {}}}
+	if g.chance(40) {
+		t.Method = "checksum"
+	}
+	root := ""
+	if g.chance(25) {
+		t.Dir = "sub"
+		root = "sub/"
+	}
+	var d fhCase
+	add := func(st fhStep) {
+		st.Fail, st.Kill = st.Fail-1, -1 // Fail is given 1-based here (0 = none)
+		switch st.Kind {
+		case "inv":
+			st.Yes, st.Now = true, int64(1000*(len(d.Steps)+1))
+		case "write", "touch":
+			st.Mtime = int64(1000*len(d.Steps) + 500)
+		}
+		d.Steps = append(d.Steps, st)
+	}
+	src := root + "a.e"
+	switch kind {
+	case "ignore":
+		if g.chance(35) {
+			t.Method = "timestamp"
+		}
+		t.Sources = []fhGlob{{Glob: "*.e"}}
+		k := rng.Intn(2)
+		if g.chance(60) {
+			t.IgnoreError = true
+		} else {
+			t.Cmds[k].IgnoreError = true
+		}
+		if g.chance(40) {
+			t.Cmds[1-k].Writes = []fhWrite{{Path: root + "out0_0.o", Content: "o"}}
+		}
+		d.Tasks = []fhTask{t}
+		add(fhStep{Kind: "write", Path: src, Content: g.content()})
+		add(fhStep{Kind: "inv", Mode: g.pick([]string{"run", "run", "force"}), Fail: k + 1})
+		add(fhStep{Kind: "inv", Mode: "run"})
+		if g.chance(50) {
+			add(fhStep{Kind: "write", Path: src, Content: g.content() + "i"})
+			add(fhStep{Kind: "inv", Mode: "run", Fail: k + 1})
+			add(fhStep{Kind: "inv", Mode: g.pick([]string{"run", "status", "listjson"})})
+		}
+	case "drop":
+		if g.chance(35) {
+			t.Method = "timestamp"
+		}
+		pat := g.pick([]string{"{a,b}.e", "{a.e,c.x}", "*.e", "d/*", "**/*.e"})
+		t.Sources = []fhGlob{{Glob: pat}}
+		switch pat {
+		case "*.e":
+			d.Dangling = []string{root + "zz.e"}
+		case "d/*":
+			d.Dangling = []string{root + "d/zz.e"}
+			src = root + "d/a.e"
+		case "**/*.e":
+			d.Dangling = []string{root + g.pick([]string{"zz.e", "d/zz.e"})}
+		}
+		if g.chance(30) {
+			t.Sources = append(t.Sources, fhGlob{Glob: "c.x"})
+		}
+		d.Tasks = []fhTask{t}
+		add(fhStep{Kind: "write", Path: src, Content: g.content()})
+		add(fhStep{Kind: "inv", Mode: "run"})
+		add(fhStep{Kind: "write", Path: src, Content: g.content() + "d"})
+		add(fhStep{Kind: "inv", Mode: g.pick([]string{"run", "run", "status"})})
+		if g.chance(40) {
+			add(fhStep{Kind: "inv", Mode: "run"})
+		}
+	default: // checkerr
+		if t.Method == "" && g.chance(50) {
+			t.Method = "checksum"
+		}
+		out := root + "out0_0.o"
+		t.Sources = []fhGlob{{Glob: "a.e"}}
+		t.Generates = []fhGlob{{Glob: "out0_0.o"}}
+		t.GGuard = []int{0}
+		t.Cmds[0].Writes = []fhWrite{{Path: out, Content: "o"}}
+		d.Tasks = []fhTask{t}
+		add(fhStep{Kind: "write", Path: src, Content: g.content()})
+		if g.chance(70) {
+			add(fhStep{Kind: "write", Path: out, Content: "x"})
+		}
+		add(fhStep{Kind: "inv", Mode: g.pick([]string{"run", "run", "run", "dry", "status", "listjson"}), NoG: true})
+		add(fhStep{Kind: "inv", Mode: "run"})
+		if g.chance(50) {
+			add(fhStep{Kind: "write", Path: src, Content: g.content() + "g"})
+			add(fhStep{Kind: "inv", Mode: "run", NoG: true})
+			add(fhStep{Kind: "inv", Mode: g.pick([]string{"run", "status"})})
+		}
+	}
+	return d
+}
+
+// genTwin: the CONCURRENT-ACTIVATION stream (c04).  One task with sources, without status / generates, of
+// either method; the source is in place (optionally a first run and an edit); then the task is activated
+// TWICE in one invocation — the second activation checks while the first is inside its first command.
+func (g *fhGen) genTwin() fhCase {
+	t := fhTask{Name: g.pick([]string{"x", "y", "a-b", "a:b", "a_b"}), Cmds: []fhCmd{{}}}
+	switch g.c.Rng.Intn(3) {
+	case 0:
+		t.Method = "timestamp"
+	case 1:
+		t.Method = "checksum"
+	}
+	root := ""
+	if !strings.Contains(t.Name, ":") && g.chance(25) {
+		t.Dir = "sub"
+		root = "sub/"
+	}
+	t.Sources = []fhGlob{{Glob: g.pick([]string{"a.e", "*.e", "**/*.e"})}}
+	if g.chance(40) {
+		t.Cmds = append(t.Cmds, fhCmd{Writes: []fhWrite{{Path: root + "out0_1.o", Content: "o"}}})
+	}
+	var d fhCase
+	d.Tasks = []fhTask{t}
+	add := func(st fhStep) {
+		st.Fail, st.Kill = -1, -1
+		switch st.Kind {
+		case "inv":
+			st.Yes, st.Now = true, int64(1000*(len(d.Steps)+1))
+		case "write":
+			st.Mtime = int64(1000*len(d.Steps) + 500)
+		}
+		d.Steps = append(d.Steps, st)
+	}
+	src := root + "a.e"
+	add(fhStep{Kind: "write", Path: src, Content: g.content()})
+	if g.chance(50) {
+		add(fhStep{Kind: "inv", Mode: "run"})
+		add(fhStep{Kind: "write", Path: src, Content: g.content() + "t"})
+	}
+	add(fhStep{Kind: "inv", Mode: "run", Twin: true})
+	add(fhStep{Kind: "inv", Mode: g.pick([]string{"run", "status", "listjson"})})
+	return d
+}
+
+// genSibling: the CANCELLED-BY-A-SIBLING stream (c04).  One task with sources and a `status:` file, of
+// either method; the source and the status file are in place; optionally a first successful run and an
+// edit; then the task runs as a dependency next to a sibling that fails while the task's status command
+// is still running: the up-to-date check has recorded the new fingerprint, the first command is refused.
+// The runs that follow must NOT report the task up to date on account of that attempt.
+func (g *fhGen) genSibling() fhCase {
+	rng := g.c.Rng
+	t := fhTask{Name: g.pick([]string{"x", "y", "a-b", "a:b", "a_b"}), Cmds: []fhCmd{{}}}
+	switch rng.Intn(3) {
+	case 0:
+		t.Method = "timestamp"
+	case 1:
+		t.Method = "checksum"
+	}
+	root := ""
+	if !strings.Contains(t.Name, ":") && g.chance(25) {
+		t.Dir = "sub"
+		root = "sub/"
+	}
+	if g.chance(20) {
+		t.Label = g.pick([]string{"L", "lab el"})
+	}
+	t.Prompt = g.chance(20)
+	t.Sources = []fhGlob{{Glob: g.pick([]string{"a.e", "*.e", "**/*.e"})}}
+	flag := root + "ok0.f"
+	t.Status = []string{flag}
+	if g.chance(50) {
+		o := root + "out0_0.o"
+		t.Cmds[0].Writes = []fhWrite{{Path: o, Content: "o"}}
+		if g.chance(60) {
+			t.Generates = []fhGlob{{Glob: "out0_0.o"}}
+		}
+	}
+	if g.chance(40) {
+		t.Cmds = append(t.Cmds, fhCmd{})
+	}
+	var d fhCase
+	d.Tasks = []fhTask{t}
+	add := func(st fhStep) {
+		st.Fail, st.Kill = -1, -1
+		switch st.Kind {
+		case "inv":
+			st.Yes, st.Now = true, int64(1000*(len(d.Steps)+1))
+		case "write", "touch":
+			st.Mtime = int64(1000*len(d.Steps) + 500)
+		}
+		d.Steps = append(d.Steps, st)
+	}
+	src := root + "a.e"
+	add(fhStep{Kind: "write", Path: src, Content: g.content()})
+	add(fhStep{Kind: "write", Path: flag, Content: "f"})
+	if g.chance(55) {
+		add(fhStep{Kind: "inv", Mode: g.pick([]string{"run", "run", "force"})})
+		add(fhStep{Kind: "write", Path: src, Content: g.content() + "s"})
+	}
+	add(fhStep{Kind: "inv", Mode: "run", Sib: true})
+	add(fhStep{Kind: "inv", Mode: g.pick([]string{"run", "run", "status", "listjson", "dry"})})
+	if g.chance(50) {
+		add(fhStep{Kind: "inv", Mode: "run"})
+	}
+	return d
+}
+
 func (g *fhGen) gen(maxLen int) fhCase {
 	rng := g.c.Rng
+	if g.prop == "c04" && g.chance(5) {
+		return g.genSibling()
+	}
+	if g.prop == "c04" && g.chance(4) {
+		return g.genDirected4to6("checkerr")
+	}
+	if g.prop == "c04" && g.chance(4) {
+		return g.genTwin()
+	}
+	if g.prop == "c05" && g.chance(8) {
+		return g.genDirected4to6(g.pick([]string{"ignore", "drop"}))
+	}
 	if g.prop == "c05" && g.chance(8) {
 		return g.genShift()
+	}
+	if (g.prop == "c05" || g.prop == "c04") && g.chance(6) {
+		return g.genLinks()
 	}
 	var d fhCase
 	nt := 1 + rng.Intn(3)
@@ -1589,6 +2258,24 @@ func (g *fhGen) gen(maxLen int) fhCase {
 		if g.chance(25) {
 			info.flag = fmt.Sprintf("%sok%d.f", root, i)
 			t.Status = []string{info.flag}
+		}
+		// ignore_error on the task / on single commands: a failing exit status is skipped over
+		if g.chance(12) {
+			t.IgnoreError = true
+		}
+		for k := range t.Cmds {
+			if g.chance(10) {
+				t.Cmds[k].IgnoreError = true
+			}
+		}
+		// a generates entry written `${G:?}/…` (method checksum): an error of the check while G is not set
+		if (t.Method == "" || t.Method == "checksum") && len(t.Sources) > 0 && g.chance(15) {
+			for gi, gg := range t.Generates {
+				if !gg.Tmpl && !gg.Neg {
+					t.GGuard = []int{gi}
+					break
+				}
+			}
 		}
 		d.Tasks = append(d.Tasks, t)
 		infos = append(infos, info)
@@ -1761,6 +2448,27 @@ func (g *fhGen) gen(maxLen int) fhCase {
 			s.Mode = "run"
 		}
 		s.Yes = !t.Prompt && g.chance(20) || t.Prompt && g.chance(60)
+		for _, tt := range d.Tasks {
+			if len(tt.GGuard) > 0 && g.chance(25) {
+				s.NoG = true
+			}
+		}
+		plainCmds := t.Method != "none"
+		for _, cm := range t.Cmds {
+			plainCmds = plainCmds && cm.Need == ""
+		}
+		if s.Mode == "run" && g.prop == "c04" && plainCmds && len(t.Status) == 0 && len(t.Generates) == 0 && len(t.Sources) > 0 && g.chance(10) {
+			s.Twin, s.Yes, s.NoG = true, true, false
+			d.Steps = append(d.Steps, s)
+			continue
+		}
+		// (not for a task with a `dir:`: while that directory does not exist the status command cannot even
+		// start, so there is nothing for the cancellation to interrupt)
+		if s.Mode == "run" && g.prop == "c04" && t.Dir == "" && len(t.Status) > 0 && len(t.Sources) > 0 && g.chance(12) {
+			s.Sib, s.Yes, s.NoG = true, true, false // (whose error the parent reports when both happen is a race)
+			d.Steps = append(d.Steps, s)
+			continue
+		}
 		if s.Mode == "run" || s.Mode == "force" {
 			failPct, killPct := 18, 10
 			if g.prop != "c04" {
@@ -1775,6 +2483,76 @@ func (g *fhGen) gen(maxLen int) fhCase {
 		d.Steps = append(d.Steps, s)
 	}
 	return d
+}
+
+// decorate draws the RENDERING choices of a generated case (they never reach the case line):
+//
+//   - symbolic links: source files (`*.e`, `*.x` paths of the universe) that exist as links to files kept
+//     outside the project, and the directories `d` / `e` of a task root as links to outside directories —
+//     an edit or a touch then changes the TARGET, which is what both methods must look at;
+//   - silence: `silent: true` on commands, `task:` calls, tasks, the root Taskfile, and `--silent` on
+//     read-only invocations — silence changes what is printed, never what runs, in particular not under
+//     --dry.
+func (g *fhGen) decorate(d *fhCase) {
+	rng := g.c.Rng
+	if g.chance(30) {
+		paths, _ := fhUniverse(*d)
+		roots := map[string]bool{"": true}
+		for _, t := range d.Tasks {
+			if t.Dir != "" {
+				roots[t.Dir+"/"] = true
+			}
+		}
+		for _, p := range paths {
+			if (strings.HasSuffix(p, ".e") || strings.HasSuffix(p, ".x") || strings.Contains(p, "/d/") || strings.HasPrefix(p, "d/")) &&
+				!strings.HasSuffix(p, ".o") && !strings.HasSuffix(p, ".f") && g.chance(45) {
+				d.LinkFiles = append(d.LinkFiles, p)
+			}
+		}
+		var rs []string
+		for r := range roots {
+			rs = append(rs, r)
+		}
+		sort.Strings(rs)
+		for _, r := range rs {
+			for _, sub := range []string{"d", "e"} {
+				if g.chance(25) {
+					d.LinkDirs = append(d.LinkDirs, r+sub)
+				}
+			}
+		}
+	}
+	if len(d.Dangling) == 0 && g.chance(12) {
+		// links to nothing next to the sources (names outside every universe)
+		for _, t := range d.Tasks {
+			root := ""
+			if t.Dir != "" {
+				root = t.Dir + "/"
+			}
+			d.Dangling = append(d.Dangling, root+g.pick([]string{"zz.e", "d/zz.e", "e/zz.x", "zz.x"}))
+		}
+	}
+	hasTwin := false
+	for _, st := range d.Steps {
+		hasTwin = hasTwin || st.Twin
+	}
+	if g.chance(35) && !hasTwin { // (a twin step is observed through the "is up to date" message)
+		for i := range d.Tasks {
+			t := &d.Tasks[i]
+			t.Silent = g.chance(25)
+			for k := range t.Cmds {
+				t.Cmds[k].Silent = g.chance(40)
+			}
+		}
+		d.SilentFile = g.chance(15)
+		for k := range d.Steps {
+			// (`--list[-all] --silent` is another query — it prints the task names only — so the flag goes on
+			// --dry / --status / --summary)
+			if st := &d.Steps[k]; st.Kind == "inv" && (st.Mode == "dry" || st.Mode == "status" || st.Mode == "summary") {
+				st.Silent = rng.Intn(100) < 30
+			}
+		}
+	}
 }
 
 func fhHasInv(ss []fhStep) bool {
@@ -1809,6 +2587,7 @@ func runFingerHist(c *Ctx, prop string) {
 	cases := make([]fhCase, n)
 	for i := range cases {
 		cases[i] = g.gen(maxLen)
+		g.decorate(&cases[i])
 	}
 	results := make([][]fhLine, n)
 	var wg sync.WaitGroup
@@ -1827,10 +2606,36 @@ func runFingerHist(c *Ctx, prop string) {
 	for i, d := range cases {
 		lines := results[i]
 		interesting := false
+		if len(d.LinkFiles) > 0 {
+			c.Hit("render:symlinked-source-files")
+		}
+		if len(d.LinkDirs) > 0 {
+			c.Hit("render:symlinked-directories")
+		}
+		if d.SilentFile {
+			c.Hit("render:silent-taskfile")
+		}
+		if len(d.Dangling) > 0 {
+			c.Hit("render:dangling-links")
+		}
 		for _, s := range d.Steps {
 			steps++
 			if s.Kind == "inv" {
 				c.Hit("mode:" + s.Mode)
+				if s.Silent {
+					c.Hit("render:--silent")
+				}
+				if s.Sib {
+					c.Hit("env:cancelled-by-sibling")
+					interesting = true
+				}
+				if s.NoG {
+					c.Hit("env:G-unset")
+				}
+				if s.Twin {
+					c.Hit("env:second-activation")
+					interesting = true
+				}
 				if s.Fail >= 0 {
 					c.Hit("env:fail")
 					interesting = true
@@ -1862,6 +2667,28 @@ func runFingerHist(c *Ctx, prop string) {
 			}
 			if strings.Contains(t.Name, ":") {
 				c.Hit("shape:included")
+			}
+			if t.Silent {
+				c.Hit("render:silent-task")
+			}
+			if t.IgnoreError {
+				c.Hit("shape:ignore_error-task")
+			}
+			if len(t.GGuard) > 0 {
+				c.Hit("shape:guarded-generates")
+			}
+			for _, gl := range t.Sources {
+				if strings.Contains(gl.Glob, "{") {
+					c.Hit("shape:brace-pattern")
+				}
+			}
+			for _, cm := range t.Cmds {
+				if cm.Silent && cm.Need == "" {
+					c.Hit("render:silent-cmd")
+				}
+				if cm.Silent && cm.Need != "" {
+					c.Hit("render:silent-call")
+				}
 			}
 			if t.Dir != "" {
 				c.Hit("shape:dir")
